@@ -26,6 +26,7 @@ type LifeCfg struct {
 	TimeoutLo int
 	TimeoutHi int
 	nextCommit int
+	proposed   map[string][]string // data id -> new version ids proposed by generated updates (for the abandoned-base shape)
 	bigDebt    bool // GenDebtCombo picks the largest shard and the longest renewal
 	ZeroTimeouts bool // GenStoreNew sometimes asks for a timeout of exactly 0
 	Capacity   uint64 // capacity every provider pledges during setup (0: the spec's default)
@@ -270,6 +271,7 @@ func (cfg *LifeCfg) GenStoreUpdate(t *rapid.T, s *Sim) *Action {
 	a.DataId = m.DataId
 	cfg.nextCommit++
 	a.Commit = latestCommit(m) + "|" + CommitN(cfg.nextCommit)
+	cfg.notePropose(m.DataId, CommitN(cfg.nextCommit))
 	a.Alias = m.Alias
 	a.Cid = CidB
 	a.Op = uint32(rapid.IntRange(1, 2).Draw(t, "op"))
@@ -761,6 +763,13 @@ func (cfg *LifeCfg) GenPermission(t *rapid.T, s *Sim) *Action {
 	return a
 }
 
+func (cfg *LifeCfg) notePropose(dataId, v string) {
+	if cfg.proposed == nil {
+		cfg.proposed = map[string][]string{}
+	}
+	cfg.proposed[dataId] = append(cfg.proposed[dataId], v)
+}
+
 // GenStoreStale: an update signed by an authorised principal (owner or read-write grantee)
 // whose base/new commit field comes from the hostile commit grammar.
 func (cfg *LifeCfg) GenStoreStale(t *rapid.T, s *Sim) *Action {
@@ -810,7 +819,25 @@ func (cfg *LifeCfg) GenStoreStale(t *rapid.T, s *Sim) *Action {
 	if len(older) > 0 {
 		shapes = append(shapes, older[rapid.IntRange(0, len(older)-1).Draw(t, "older")]+"|"+nc)
 	}
+	// a version id that an earlier update proposed but that never became part of the history
+	// (the update was cancelled, timed out or refused): "base = what the abandoned update would have committed"
+	var abandoned []string
+	for _, v := range cfg.proposed[m.DataId] {
+		committed := v == last
+		for _, c := range older {
+			committed = committed || c == v
+		}
+		if !committed {
+			abandoned = append(abandoned, v)
+		}
+	}
+	if len(abandoned) > 0 && m.Status == modeltypes.MetaComplete {
+		ab := abandoned[len(abandoned)-1] + "|" + nc
+		shapes = append(shapes, ab, ab, ab)
+		s.Label("abandoned-base-available")
+	}
 	a.Commit = shapes[rapid.IntRange(0, len(shapes)-1).Draw(t, "shape")]
+	cfg.notePropose(m.DataId, nc)
 	a.Alias = m.Alias
 	a.Cid = CidB
 	a.Op = uint32(rapid.IntRange(1, 2).Draw(t, "op"))
